@@ -169,8 +169,43 @@ def r1_4(ctx):
     ctx.end()
 
 
+def r1_5(ctx):
+    """A dependency the user declares must reach the lists the gates read: append_input_task / extend_input_task_list register
+    [task, kind] on both sides for every kind, also when the same pair is already linked by another kind."""
+    ctx.begin("R1.5", "declaring a dependency registers [task, kind] in input_task_list and in the predecessor's output_task_list", floor=2)
+    kinds = list(ctx.repo.enums[DEP])
+    for name in ("append_input_task", "extend_input_task_list"):
+        g = ctx.repo.lookup_method(TASK, name)
+        if g is None:
+            continue
+        for k_old in [None] + kinds:
+            for k_new in kinds:
+                T, P = Obj("self", TASK), Obj("P", TASK)
+                heap = {("self", "input_task_list"): ListV([ListV([P, E(DEP, k_old)], True, "list")] if k_old else [], True, "list"),
+                        ("P", "output_task_list"): ListV([ListV([T, E(DEP, k_old)], True, "list")] if k_old else [], True, "list")}
+                arg = P if name.startswith("append") else ListV([P], True, "list")
+                I = mk_interp(ctx, inline=lambda call, callee, depth: callee.cls == TASK, max_depth=3)
+                outs = I.run_function(g, bind={g.params[1]: arg, g.params[2]: E(DEP, k_new)}, heap=heap)
+                ctx.instance(construct(g, f"{k_old}+{k_new}"), cells=len(outs))
+                for st, ex in outs:
+                    if ex is not None and ex[0] == "raise":
+                        continue
+                    def has(lst, obj, kind):
+                        return isinstance(lst, ListV) and any(isinstance(x, ListV) and len(x.items) == 2 and x.items[0] == obj and isinstance(x.items[1], EnumSet) and x.items[1].single() == kind
+                                                              for x in lst.items)
+                    li, lo = st.heap.get(("self", "input_task_list")), st.heap.get(("P", "output_task_list"))
+                    if not (isinstance(li, ListV) and isinstance(lo, ListV)):
+                        raise AnalysisError(f"R1.5: lists after {name} are not determined ({li!r}, {lo!r})")
+                    if not has(li, P, k_new) or not has(lo, T, k_new) or (k_old and (not has(li, P, k_old) or not has(lo, T, k_old))):
+                        ctx.violation(construct(g, "dependency-not-registered"), g.loc(),
+                                      f"{name}(P, {k_new}) on a task that is {'already linked to P by ' + k_old if k_old else 'not linked to P'} leaves input_task_list={li!r}, "
+                                      f"P.output_task_list={lo!r}: the declared {k_new} dependency (or the existing one) is not registered on both sides, so the gates never enforce it")
+    ctx.end()
+
+
 def run(ctx):
     r1_1(ctx)
     r1_2(ctx)
     r1_3(ctx)
     r1_4(ctx)
+    r1_5(ctx)
